@@ -95,6 +95,13 @@ def observe_lib(lib, names, is_module, mod=None):
     obs = {'len': n}
     items = _try(itemize)
     obs['itemize'] = [list(t) for t in items] if isinstance(items, list) else items
+    if isinstance(items, list):
+        # the list belongs to the caller: whatever is done to it, the next listing is the same again
+        items.reverse()
+        items.append(('junk', -1))
+        del items[:2]
+        again = _try(itemize)
+        obs['itemize_again'] = [list(t) for t in again] if isinstance(again, list) else again
     top = n if isinstance(n, int) else 8
     obs['by_id'] = {str(i): _try(lambda i=i: getname(i)) for i in range(-1, top + 4)}
     # the same ids as numpy integer scalars (an id taken from an array or a data frame column)
@@ -133,6 +140,9 @@ def judge(obs, acc, is_module, who):
     if obs['itemize'] != want_items:
         raise Violation(f'{who}: itemize() differs from the id-ordered tag list', expected=want_items,
                         observed=obs['itemize'])
+    if obs.get('itemize_again', want_items) != want_items:
+        raise Violation(f'{who}: itemize() after the caller modified the list it got from the previous call',
+                        expected=want_items, observed=obs['itemize_again'])
     for i in range(-1, n + 4):
         got = obs['by_id'].get(str(i))
         want = (['NONE'] + acc)[i] if 0 <= i < n else 'EXC:TagNotFoundError'
